@@ -48,9 +48,9 @@ func ModelRequest(prop string, h *History, t *Table, obs []*StepObs) string {
 	if h.Cfg.Desc {
 		dir = "desc"
 	}
-	fmt.Fprintf(&sb, "(%s run (cfg %s %d) (vals", prop, dir, h.Cfg.Thresh)
+	fmt.Fprintf(&sb, "(%s run (cfg %s %d) (vals", prop, dir, h.Cfg.ModelThresh())
 	for _, v := range t.Vals {
-		fmt.Fprintf(&sb, " (%s %s %d)", v.Key, hexAtom(v.Bytes), v.Ty)
+		fmt.Fprintf(&sb, " (%s %s %s %d)", v.MKey, v.MKey, hexAtom(v.Bytes), v.Ty)
 	}
 	sb.WriteString(") (ops")
 	for i, op := range h.Ops {
